@@ -412,6 +412,44 @@ func c05EvalRows() []string {
 	return out
 }
 
+// representation shapes (variables bound by an earlier goal of the conjunction) in every argument position of every
+// procedure, the other arguments all unbound / all [a,b] / alternating, in the execution contexts T (top-level
+// conjunction), S (stored clause) and — thorough tier — Rc Rk Rf Rn (recompiled under call/catch/findall/\\+).
+// Complete and seed-independent in both tiers.
+func c05BoundRows(tier string) []string {
+	v, l := c05ShapeIdx["var"], c05ShapeIdx["list"]
+	var out []string
+	for _, p := range c05Procs() {
+		if c05Excluded(p) || p.arity == 0 {
+			continue
+		}
+		for pos := 0; pos < p.arity; pos++ {
+			for _, b := range c05BoundShapeNames {
+				fillers := [][2]int{{v, v}, {l, l}, {v, l}, {l, v}}
+				if p.arity == 1 {
+					fillers = fillers[:1]
+				}
+				for fi, fl := range fillers {
+					vec := make([]int, p.arity)
+					for k := range vec {
+						vec[k] = fl[k%2]
+					}
+					vec[pos] = c05ShapeIdx[b]
+					row := strings.TrimPrefix(c05Case(p, vec), "g")
+					out = append(out, "gc:T"+row)
+					if fi < 2 {
+						out = append(out, "gc:S"+row)
+					}
+					if tier == "thorough" && fi < 2 {
+						out = append(out, "gc:Rc"+row, "gc:Rk"+row, "gc:Rf"+row, "gc:Rn"+row)
+					}
+				}
+			}
+		}
+	}
+	return out
+}
+
 // interpreters made by prolog.New(nil, nil) (README: "if you don't need user_input/user_output")
 func c05NilRows() []string {
 	var out []string
@@ -458,6 +496,7 @@ func genC05Matrix(r *rand.Rand, n int, tier string) []string {
 	}
 	add(c05IntRows(r, tier))
 	add(c05EvalRows())
+	add(c05BoundRows(tier))
 	add(c05EdgeRows(r, tier))
 	if tier == "thorough" || n <= 0 || n >= len(big) {
 		add(big)
@@ -538,7 +577,11 @@ func runC05Matrix(payload string) string {
 		}
 		return "procs " + strings.Join(names, " ") + " ### nt=0 kind=procs"
 	}
-	if (f[0] != "g" && f[0] != "gn") || len(f) < 3 {
+	execCtx := ""
+	if strings.HasPrefix(f[0], "gc:") {
+		execCtx = f[0][3:]
+	}
+	if (f[0] != "g" && f[0] != "gn" && execCtx == "") || len(f) < 3 {
 		panic("bad c05.matrix case: " + payload)
 	}
 	name, err := decName(f[1])
@@ -552,6 +595,7 @@ func runC05Matrix(payload string) string {
 	if f[0] == "gn" {
 		i = prolog.New(nil, nil)
 	}
+	c05RegisterBind(i)
 	c := &c05Ctx{i: i}
 	args := make([]engine.Term, arity)
 	for j := range args {
@@ -574,7 +618,9 @@ func runC05Matrix(payload string) string {
 		return k(env)
 	})
 	full := goal
-	if len(c.prelude) > 0 {
+	if execCtx != "" {
+		full = c05InContext(i, execCtx, c.prelude, goal, args)
+	} else if len(c.prelude) > 0 {
 		if arity == 2 && (name == "," || name == ";" || name == "->") {
 			// control constructs are compiled inline: a non-callable argument would make the whole
 			// conjunction (prelude included) a type_error(callable, _) at compile time
